@@ -26,8 +26,8 @@ def h256(b):
 
 
 MUTS = ["none", "high_s", "flip_r", "flip_s", "flip_msg", "flag_byte", "flip_pub", "r0", "s0", "rn", "sn", "rn1", "sn1",
-        "r_plus_n", "swap_key", "pub_x_ge_p", "pub_offcurve", "pub_prefix", "pub_len", "pub_hybrid", "pub_65_with_02",
-        "pub_33_with_04", "infinity", "byte_sub_der"]
+        "r_plus_n", "s_plus_n", "swap_key", "pub_x_ge_p", "pub_offcurve", "pub_prefix", "pub_len", "pub_hybrid", "pub_65_with_02",
+        "pub_33_with_04", "infinity", "byte_sub_der", "pub_parity_flip", "infinity_via_pubkey", "pub_parity_flip_then_genuine"]
 
 
 def gen_cases(tier, seed):
@@ -69,7 +69,7 @@ def gen_cases(tier, seed):
     plist = [(43, 4)] if tier == "quick" else [(43, 1), (67, 3), (79, 3)]
     for p, stride in plist:
         c = secp.small_curve(p)
-        for r in range(0, c.n + 1):
+        for r in range(0, c.n + 4):     # beyond N: r = N+1.. are aliases (mod N) of valid values and must be rejected
             yield "small", {"p": p, "r": r, "stride": stride, "phase": (r * 7 + seed) % stride}
 
 
@@ -142,6 +142,8 @@ def run_case(kind, params, ctx):
             s = N + 1
         elif mut == "r_plus_n":
             r = r + N
+        elif mut == "s_plus_n":
+            s = s + N
         elif mut == "swap_key":
             pub = secp.sec1_encode(secp.pub(int(params["d2"], 16)), comp)
         elif mut == "pub_x_ge_p":
@@ -163,6 +165,12 @@ def run_case(kind, params, ctx):
             pub = secp.sec1_encode(pt, True) + [b"\x00" * 32, pt[1].to_bytes(32, "big"), rand_bytes(rng_for(bit), 32)][bit % 3]
         elif mut == "pub_33_with_04":
             pub = b"\x04" + pt[0].to_bytes(32, "big")
+        elif mut in ("pub_parity_flip", "pub_parity_flip_then_genuine"):
+            # same x, other y: -P.  (A decoder that remembers y per x would hand back the first parity it saw.)
+            pub = secp.sec1_encode((pt[0], P - pt[1]), True)
+        elif mut == "infinity_via_pubkey":
+            # the verifier's own public key is free: P = (-z/r) G makes u1*G + u2*P the point at infinity for ANY r, s
+            pass
         elif mut == "infinity":
             # z + r*d == 0 (mod n)  =>  u1*G + u2*P is the point at infinity; needs a digest we control: use ecmath level
             pass
@@ -170,6 +178,13 @@ def run_case(kind, params, ctx):
             # cannot choose the digest through a hash; exercised through ecmath.verify below
             _ecverify(ctx, d, None, None, "infinity", bit, k)
             return
+        if mut == "infinity_via_pubkey":
+            zz0 = int.from_bytes(h256(vmsg if pre else vmsg + (flag & 0xFF).to_bytes(4, "little")), "big") % N
+            if zz0 == 0:
+                return
+            dd = (-zz0 * pow(r, -1, N)) % N
+            pub = secp.sec1_encode(secp.pub(dd), comp)
+            ctx.count("mut.infinity")
         try:
             der = rder.encode(r, s) if der is None else der
         except Exception:
@@ -192,6 +207,15 @@ def run_case(kind, params, ctx):
                     ctx.oracle_error(f"reference and OpenSSL disagree on {params}")
                     return
         # ---- library
+        if mut == "pub_parity_flip_then_genuine":
+            # history: the flipped key is decoded first, then the genuine one (which is what is judged below)
+            try:
+                bu.sig_verify(sig, pub, vmsg, msg_preimage=pre)
+            except Exception:
+                pass
+            pub = secp.sec1_encode(pt, True)
+            ref_pub = secp.sec1_decode(pub)
+            expected = recdsa.verify(ref_pub, zz, strict[0], strict[1]) if strict is not None else None
         try:
             out = bu.sig_verify(sig, pub, vmsg, msg_preimage=pre)
             lib_ok = out == "OK"
@@ -341,7 +365,7 @@ def _small(ctx, params):
         x += 1
     i = 0
     with retarget_field(p):
-        for s in range(0, n + 1):
+        for s in range(0, n + 4):
             for pt in pts + off:
                 for z in range(0, n + 2):
                     i += 1
